@@ -117,11 +117,11 @@ pub fn main(tier: Tier, seed: u64) -> i32 {
     if tier.is_thorough() {
         lens.extend(1..=4096);
     } else {
-        lens.extend(1..=320);
+        lens.extend(1..=1030);
         for k in 1..=512usize {
             for d in [-1i64, 0, 1] {
                 let l = (8 * k) as i64 + d;
-                if l > 320 && l <= 4097 && (k % 16 == 0 || k <= 64 || k % 16 == 15 || k % 16 == 1) {
+                if l > 1030 && l <= 4097 && (k % 16 == 0 || k <= 64 || k % 16 == 15 || k % 16 == 1) {
                     lens.push(l as usize);
                 }
             }
@@ -174,7 +174,7 @@ pub fn main(tier: Tier, seed: u64) -> i32 {
     rep.exhaustive = Some(true);
     rep.set("lengths", json!(lens.len()));
     rep.set("max_length", json!(lens.iter().max()));
-    rep.rule = "each case = two back-to-back correlated-OT sessions (one per direction) over one channel with one shared generator; lengths enumerated (thorough: every length 1..4096; quick: 1..320 plus 8k-1/8k/8k+1 and 128k-1/128k/128k+1 up to 4097); patterns all-0/all-1/alternating/2 tape-derived; correlation constant or index-dependent; both session orders. distinct = (length, pattern, correlation kind, order); trivial = length 1 with a constant choice".into();
+    rep.rule = "each case = two back-to-back correlated-OT sessions (one per direction) over one channel with one shared generator; lengths enumerated (thorough: every length 1..4096; quick: 1..1030 plus 8k-1/8k/8k+1 and 128k-1/128k/128k+1 up to 4097); patterns all-0/all-1/alternating/2 tape-derived; correlation constant or index-dependent; both session orders. distinct = (length, pattern, correlation kind, order); trivial = length 1 with a constant choice".into();
     rep.assumptions = vec!["entry points are the crate's __bench re-exports of kos_ot_sender/kos_ot_receiver".into()];
     rep.finish()
 }
